@@ -953,3 +953,21 @@ package rockredis
 //@   modifies *
 //@   loop 1
 //@   invariant it != nil && rliOK(it) && len(v) < num && num >= 1
+
+//@ property C08 C10
+// ---- SET family: the stored value is always header + user data + modify time; a refused ttl writes nothing ----
+//@ func (db *RockDB) resetWithNewKVValue(ts int64, rawKey []byte, value []byte, ttl int64, wb engine.WriteBatch) ([]byte, error)
+//@   trusted builds the stored value (header codec C10) and maintains the expiry index of the policy
+//@   ensures result1 == nil ==> result0 != nil && len(result0) >= 8
+//@   ensures result1 != nil ==> result0 == nil
+//@   ensures ttl <= 0 ==> ghost(kvttlset, db) == 0
+//@   ensures ttl > 0 && result1 == nil ==> ghost(kvttlset, db) == ttl + ts / 1000000000
+//@   modifies ghost(kvttlset, db), ghost(expdels, _), ghost(wbputs, wb), ghost(wbdels, wb), ghost(wbver, wb)
+//@ func (db *RockDB) KVSetWithOpts(ts int64, rawKey []byte, value []byte, duration int64, createOnly bool, updateOnly bool) (int64, error)
+//@   requires db != nil && db.wb != nil && ghost(kvlen, db) >= 0
+//@   callassert Put arg2 != nil && len(arg2) >= 8
+//@   ensures result1 == nil && createOnly && ghost(kvlen, db) > 0 && ghost(kvexpired, db) == 0 ==> result0 == 0
+//@   ensures result1 == nil && updateOnly && ghost(kvexpired, db) == 1 ==> result0 == 0
+//@   ensures result0 == 0 && result1 == nil ==> ghost(wbputs, db.wb) == old(ghost(wbputs, db.wb)) && ghost(commits, db.rockEng) == old(ghost(commits, db.rockEng))
+//@   ensures result0 != 0 ==> result0 == 1
+//@   modifies ghost(wbputs, _), ghost(wbdels, _), ghost(wbver, _), ghost(commits, _), ghost(cputs, _), ghost(cdels, _), ghost(cver, _), ghost(tblcnt, db), ghost(kvttlset, db), ghost(expdels, _)
